@@ -1,6 +1,6 @@
 """C17 - R-MAX stays optimistic about what it has not tried often enough."""
 from sim.core import Violation, Inconclusive, InjectedAbort, RandomProxy, patched_random, close
-from sim.models import gen_mdp_spec, MDPView, make_mdp, sibling_mdp_spec, rotated_probability_spec, update_model_in_place
+from sim.models import nested_variant_spec, gen_mdp_spec, MDPView, make_mdp, sibling_mdp_spec, rotated_probability_spec, update_model_in_place
 from sim.refsolve import game_W
 from sim.ctx import RunCtx, make_scheduler, gen_sched
 from sim import shrink as shr
@@ -36,6 +36,8 @@ def gen_case(rng, tier, idx):
     cfg = dict(m=rng.randint(1, 5) if rng.random() < 0.97 else rng.choice((20, 50)), tol=rng.choice((1e-3, 1e-5)), episodes=rng.randint(1, 6) if rng.random() < 0.98 else 0, seed=rng.choice((0, 1, 5, 99, None)),
                reuse=rng.randrange(1000) if rng.random() < 0.15 else None, alias=rng.choice(('fresh', 'fresh', 'cached', 'shared', 'tuple')),
                explicit_lists=rng.choice((False, False, False, True, 'swap', 'reversed')), model_update=rng.random() < 0.12)
+    if rng.random() < 0.1 and idx % 4 != 0:
+        cfg['nest'] = rng.randrange(1000)
     plain = idx % 4 == 0
     sched = gen_sched(rng, ('P',) if plain else ('P', 'U', 'R', 'R', 'X'))
     if plain:
@@ -49,7 +51,7 @@ def execute(case, script=None):
     ctx = RunCtx(PROP, view)
     ctx.W = game_W(view)
     ctx.declare_probes('pair_at_exactly_m', 'pair_at_m_minus_1_at_end', 'pair_sampled_beyond_m', 'unknown_pair_at_end',
-                       'episode_from_absorbing_start', 'learner_reused', 'discount_close_to_one', 'explicit_state_list_with_unreachable_states', 'rerun_after_abort', 'model_updated_in_place', 'explicit_state_list_permuted')
+                       'episode_from_absorbing_start', 'learner_reused', 'discount_close_to_one', 'explicit_state_list_with_unreachable_states', 'rerun_after_abort', 'model_updated_in_place', 'nested_run', 'explicit_state_list_permuted')
     sched = make_scheduler(case, script, ctx)
     try:
         return _execute(rm, view, case['cfg'], ctx, sched)
@@ -249,7 +251,35 @@ def _execute(rm, view, cfg, ctx, sched):
                             pass
                     ctx.W = W0
                     state['main'] = True
+            hookN = None
+            if cfg.get('nest') is not None:
+                # fault F10: at the k-th model call-back of the real training run, ANOTHER RMAX object (same threshold, seed and
+                # tolerance) is trained on another problem with the same state and action keys - and therefore the same table
+                # shapes - but another absorbing set / discount, other probabilities and rewards
+                nv = MDPView(nested_variant_spec(view.spec, cfg['nest']))
+                nW = game_W(nv)
+                nmdp = make_mdp(nv, None, explicit_lists=cfg.get('explicit_lists', False))
+                import numpy as _np
+                nrmax = float(_np.max(nmdp.reward_matrix))
+
+                def nested():
+                    ctx.probe('nested_run')
+                    state['main'] = False
+                    try:
+                        ctx.W = nW
+                        rn = rm.RMAX(episodes=1 + cfg['nest'] % 3, rmax=nrmax, num_transition_samples=m, bellman_convergence_diff=tol,
+                                     seed=cfg['seed'], event_listener_class=L).train_on(nmdp)
+                        for _s in range(view.N):
+                            try:
+                                rn.policy.action_dist(sk[_s])
+                            except Exception:
+                                pass
+                    finally:
+                        state['main'] = True
+                hookN = ctx.nest_after(1 + cfg['nest'] % 50, nested)
             res = learner.train_on(mdp)
+            if hookN is not None:
+                ctx.disarm(hookN)
         except (Violation, Inconclusive):
             raise
         except Exception as e:
